@@ -159,7 +159,8 @@ def examine(ctx, cases):
         ctx.sample(rep, cap=3)
         ids = [b['id'] for b in sols[0][1]['branches']]
         nodes = sorted(sols[0][0]['phi'])
-        scale_v = max(max(abs(complex(x)) for x in s[0]['phi'].values()) for s in sols) + 1e-300
+        amp = max([abs(c['params'].get('V', 0)) for c in case['components']] + [abs(c['params'].get('I', 0)) for c in case['components']] + [0.0])
+        scale_v = max(max(max(abs(complex(x)) for x in s[0]['phi'].values()) for s in sols), 1e-9 * amp, 1e-300)     # floor: an all-zero solution
         scale_i = max(netrun.scales(s[0], s[1])[1] for s in sols)
         cond = max(s[2] for s in sols)
         tol = max(1e-8, cond * 1e-13) * len(ws)
